@@ -1,6 +1,7 @@
 """C11 -- Galerkin entries are additive under splitting (exact additivity of
 the decomposition; DESIGN.md E4/E6)."""
-from .. import panels, hier
+from .. import panels, hier, kernels
+from ..cas import run_tasks
 
 LEVEL = 'other'
 META = {
@@ -19,9 +20,12 @@ META = {
 
 
 def run(prog, report, tier):
-    panels.check_integrate(prog, report, rules=('partition', 'precond'))
+    panels.check_sym(prog, report)
+    panels.check_integrate(prog, report)
     panels.check_exact_splitter(prog, report)
     hier.check_virtual_children(prog, report)
+    run_tasks(report, [(kernels.cert_K2_fourterm, (prog.repo, )),
+                       (kernels.cert_fourterm_exact, (prog.repo, ))])
     report.not_decided.append(
         'agreement of parent and child quadratures to 1e-7 (different '
         'rules per branch; numerical)')
